@@ -719,6 +719,9 @@ std::vector<Scenario> scenarios_for(const std::string& prop, int tier) {
         { auto s = base("L6-rm1-121", {RUN(), PUB(1, 1), PUB(2, 2), PUB(1, 3)}, RECOVERABLE | F_REORDER | F_DELAY, 2, M_C02); s.broker.connack_props = {ref::pnum(0x21, 1)}; v.push_back(s); }
         { auto s = base("L7-rm2-2121", {RUN(), PUB(2, 1), PUB(1, 2), PUB(2, 3), PUB(1, 4)}, RECOVERABLE & ~(F_CONN | F_HS), tier ? 2 : 2, M_C02); s.broker.connack_props = {ref::pnum(0x21, 2)}; v.push_back(s); }
         { auto s = base("L5-mixed", {RUN(), PUB(1, 1), SUB({{"x", 0}}), PUB(2, 2), UNSUB({"y"})}, RECOVERABLE | F_REORDER, tier ? 2 : 1, M_C02); v.push_back(s); }
+        // the broker sends a malformed packet in the middle of traffic: the client disconnects (its DISCONNECT may itself fail) and must come back and finish everything
+        { int k = 0; for (auto& raw : {std::string("\x00\x05\x1f\x00\x02\x6f\x6b", 7), std::string("\x30\x05\x00\x01\x74\x01\x0b", 7), std::string("\x40\x01\x00", 3)}) { Action b = A(Action::BRAW); b.payload = raw;
+              auto s = base("L9-malformed-in-traffic-" + std::to_string(k++), {RUN(), WAIT_HS(1), PUB(1, 1), b, PUB(2, 2), SUB({{"x", 1}})}, RECOVERABLE | F_REORDER, 2, M_C02); v.push_back(s); } }
         { auto s = base("L8-refused-in-between", {RUN(), PUB(1, 1), PUB(2, 2), SUB({{"x", 1}})}, RECOVERABLE | F_REORDER, 2, M_C02 | M_C03); s.broker.connack_rc_script = {0, 0x89, 0, 0x89, 0}; v.push_back(s); }
     }
     else if (prop == "C03") {
